@@ -5,12 +5,15 @@ package main
 
 import (
 	"encoding/json"
+	"errors"
 	"fmt"
 	"sort"
 	"strconv"
 	"strings"
 	"time"
 
+	"google.golang.org/protobuf/proto"
+	"google.golang.org/protobuf/types/known/anypb"
 	"google.golang.org/protobuf/types/known/timestamppb"
 
 	"github.com/streamingfast/bstream"
@@ -50,6 +53,27 @@ type fkEvent struct {
 	Junc  *fkRef  `json:"junc,omitempty"`
 	Idx   int     `json:"idx"`
 	Count int     `json:"count"`
+	// W3: observables the Coq event type has no field for (see fkCursorBlk, fkRecorder.ProcessBlock)
+	CStep int `json:"cstep,omitempty"`          // the CURSOR's step (Step above is the event's: ForkableObject.Step())
+	Flags int `json:"flags,omitempty"` // fkFlag* bits: what was handed to the handler is not what was fed
+}
+
+// W3 flags of one delivered event (0 = consistent)
+const (
+	fkFlagBlock      = 1 // the delivered block is not (proto.Equal to) any block that was fed under that id (payload, timestamp, ...)
+	fkFlagObj        = 2 // the wrapped object (ForkableObject.Obj) is not the object that was fed together with that block
+	fkFlagStepBlocks = 4 // StepBlocks disagrees with StepCount / StepIndex / the delivered block (or a New event carries batch fields)
+	fkFlagFinal      = 8 // FinalBlockHeight() is not the cursor's LIB height
+)
+
+// W3: C04 "a cursor whose step and block are those of the event": the Coq event carries the event's step and the cursor's block;
+// a cursor whose STEP is not the event's is projected as a cursor block that is no block at all (foreign id), so that the clause
+// `ecblk = bref eblk` of c04_b / cursors_ok / c04_file_verdict stands for the pair (step, block)
+func fkCursorBlk(c *bstream.Cursor, step bstream.StepType) fkRef {
+	if c.Step != step {
+		return fkRef{ID: 1<<63 + 7777, Num: c.Block.Num()}
+	}
+	return fkRefOf(c.Block)
 }
 type fkLook struct {
 	AllIDs  []uint64   `json:"all_ids"`
@@ -67,11 +91,17 @@ type fkStepObs struct {
 	HeadLib uint64   `json:"head_lib"`
 	HeadNum uint64   `json:"head_num"`
 	Look   *fkLook   `json:"look,omitempty"`
+	ErrText string   `json:"err_text,omitempty"` // W3: text of an error that is not (a wrapper of) the handler's error value
 }
 type fkObs struct {
 	Steps []fkStepObs `json:"steps"`
 	QH    []uint64    `json:"qh,omitempty"`
 	QI    []uint64    `json:"qi,omitempty"`
+	// W3 (C03 "outputs do not depend on the retention setting or on re-fed or below-LIB blocks", evaluated on the REAL code):
+	// bit 1: the run with another kept-final-blocks value delivered something else; bit 2: the run on the history without its
+	// re-fed and below-LIB blocks delivered something else for the remaining blocks
+	Indep     int    `json:"indep"`
+	IndepNote string `json:"indep_note,omitempty"`
 }
 
 func fkIDStr(n uint64) string {
@@ -122,17 +152,76 @@ func fkOptions(in *fkInput) []forkable.Option {
 	return opts
 }
 
+type fkTok struct{ id string; seq int }
+type fkFed struct {
+	pb  *pbbstream.Block
+	tok *fkTok
+}
 type fkRecorder struct {
 	calls  int
 	failAt int
 	cur    *[]fkEvent
+	fed    map[string][]fkFed // W3: what was fed, per id (nil: the caller feeds plain blocks, no identity flags)
+}
+
+// W3: is what the handler received what the source fed?
+func (h *fkRecorder) flags(blk *pbbstream.Block, fo *forkable.ForkableObject) int {
+	fl := 0
+	if c := fo.Cursor(); c != bstream.EmptyCursor && fo.FinalBlockHeight() != c.LIB.Num() {
+		fl |= fkFlagFinal
+	}
+	if h.fed == nil {
+		return fl
+	}
+	okBlk, okObj := false, false
+	for _, f := range h.fed[blk.Id] {
+		same := f.pb == blk
+		if same || proto.Equal(f.pb, blk) {
+			okBlk = true
+			if tok, _ := fo.Obj.(*fkTok); tok != nil && tok == f.tok {
+				okObj = true
+			} else if same {
+				// the very object that was fed with another wrapped object than the one fed with it
+				okObj = false
+				break
+			}
+		}
+	}
+	if !okBlk {
+		fl |= fkFlagBlock
+	}
+	if !okObj {
+		fl |= fkFlagObj
+	}
+	if fo.WrappedObject() != fo.Obj {
+		fl |= fkFlagObj
+	}
+	// batch fields: Undo / redo / Irreversible / Stalled batches number their events and hand the whole batch along
+	if fo.StepCount == 0 && fo.StepIndex == 0 && fo.StepBlocks == nil {
+		if fo.Step() != bstream.StepNew {
+			fl |= fkFlagStepBlocks
+		}
+	} else {
+		if len(fo.StepBlocks) != fo.StepCount || fo.StepIndex < 0 || fo.StepIndex >= len(fo.StepBlocks) {
+			fl |= fkFlagStepBlocks
+		} else if sb := fo.StepBlocks[fo.StepIndex]; sb == nil || sb.Block != blk || sb.Obj != fo.Obj {
+			fl |= fkFlagStepBlocks
+		} else {
+			for _, sb := range fo.StepBlocks {
+				if sb == nil || sb.Block == nil {
+					fl |= fkFlagStepBlocks
+				}
+			}
+		}
+	}
+	return fl
 }
 
 func (h *fkRecorder) ProcessBlock(blk *pbbstream.Block, obj interface{}) error {
 	fo := obj.(*forkable.ForkableObject)
 	c := fo.Cursor()
-	ev := fkEvent{Step: int(fo.Step()), Blk: fkFromPB(blk), CBlk: fkRefOf(c.Block), Head: fkRefOf(c.HeadBlock), Lib: fkRefOf(c.LIB),
-		Idx: fo.StepIndex, Count: fo.StepCount}
+	ev := fkEvent{Step: int(fo.Step()), Blk: fkFromPB(blk), CBlk: fkCursorBlk(c, fo.Step()), Head: fkRefOf(c.HeadBlock), Lib: fkRefOf(c.LIB),
+		Idx: fo.StepIndex, Count: fo.StepCount, CStep: int(c.Step), Flags: h.flags(blk, fo)}
 	if j := fo.ReorgJunctionBlock(); j != nil {
 		r := fkRefOf(j)
 		ev.Junc = &r
@@ -228,9 +317,9 @@ func fkRun(in *fkInput) (*fkObs, *forkable.Forkable) {
 		sort.Slice(obs.QH, func(i, j int) bool { return obs.QH[i] < obs.QH[j] })
 		sort.Slice(obs.QI, func(i, j int) bool { return obs.QI[i] < obs.QI[j] })
 	}
-	rec := &fkRecorder{failAt: in.FailAt}
+	rec := &fkRecorder{failAt: in.FailAt, fed: map[string][]fkFed{}}
 	p := forkable.New(rec, fkOptions(in)...)
-	for _, b := range in.History {
+	for seq, b := range in.History {
 		var evs []fkEvent
 		rec.cur = &evs
 		st := fkStepObs{}
@@ -240,12 +329,23 @@ func fkRun(in *fkInput) (*fkObs, *forkable.Forkable) {
 					st.Result = "panic"
 				}
 			}()
-			err := p.ProcessBlock(fkPB(b), nil)
+			// W3: every fed block carries a payload and travels with its own wrapped object, so that the recorder can tell
+			// whether the handler is handed the block (and object) that was fed
+			pb := fkPB(b)
+			pb.Payload = &anypb.Any{TypeUrl: "verif/fk", Value: []byte(fmt.Sprintf("%d/%d/%d/%d", b.ID, b.Num, b.Parent, b.Lib))}
+			tok := &fkTok{id: pb.Id, seq: seq}
+			rec.fed[pb.Id] = append(rec.fed[pb.Id], fkFed{pb, tok})
+			err := p.ProcessBlock(pb, tok)
 			switch {
 			case err == nil:
 				st.Result = "ok"
-			case strings.Contains(err.Error(), errFkHandler.Error()):
+			case errors.Is(err, errFkHandler):
+				// W3: "a handler error is returned to the source": the source must be able to recognise the handler's error VALUE
+				// (errors.Is through any wrapping); an error that merely repeats its text is another error ("other" below)
 				st.Result = "handler"
+			case strings.Contains(err.Error(), errFkHandler.Error()):
+				st.Result = "other"
+				st.ErrText = "not the handler's error value (errors.Is fails): " + err.Error()
 			case strings.Contains(err.Error(), "invalid block ID detected"):
 				st.Result = "selfparent"
 			default:
@@ -273,6 +373,100 @@ func fkRun(in *fkInput) (*fkObs, *forkable.Forkable) {
 		}
 	}
 	return obs, p
+}
+
+// ---- W3: C03's independence clauses on the real code ----
+
+// what one run delivered, step by step, as comparable text (events with every recorded field, result, head information)
+func fkStepSig(s fkStepObs) string {
+	b, _ := json.Marshal(struct {
+		E []fkEvent
+		R string
+		H fkRef
+		O bool
+		L uint64
+		N uint64
+	}{s.Events, s.Result, s.Head, s.HeadOK, s.HeadLib, s.HeadNum})
+	return string(b)
+}
+
+// fkIndep runs the real Forkable again (a) with other kept-final-blocks values and (b) on the history without its noise blocks:
+// a block fed before (same id and content), or a block under the current LIB height once a tip exists, that delivered nothing.
+// The LIB height used is the starting LIB and then the highest cursor LIB seen so far (never above the real one).
+func fkIndep(in *fkInput, obs *fkObs) (int, string) {
+	if in.FailAt >= 0 || (in.Mode != "excl" && in.Mode != "incl") || len(obs.Steps) != len(in.History) {
+		return 0, ""
+	}
+	for _, s := range obs.Steps {
+		if s.Result != "ok" {
+			return 0, ""
+		}
+	}
+	res, note := 0, ""
+	base := make([]string, len(obs.Steps))
+	for i, s := range obs.Steps {
+		base[i] = fkStepSig(s)
+	}
+	for _, k := range []int{0, 1, 4, 9} {
+		if k == in.Kept {
+			continue
+		}
+		in2 := *in
+		in2.Kept, in2.Lookups = k, false
+		o2, _ := fkRun(&in2)
+		bad := len(o2.Steps) != len(base)
+		for i := 0; !bad && i < len(base); i++ {
+			if fkStepSig(o2.Steps[i]) != base[i] {
+				bad = true
+				note += fmt.Sprintf("kept %d instead of %d: block #%d of the history delivers %s instead of %s; ", k, in.Kept, i, fkStepSig(o2.Steps[i]), base[i])
+			}
+		}
+		if bad {
+			res |= 1
+			break
+		}
+	}
+	// noise
+	libn := in.LIB.Num
+	tip := false
+	seen := map[fkBlock]bool{}
+	var h2 []fkBlock
+	var keep []int
+	for i, b := range in.History {
+		noise := len(obs.Steps[i].Events) == 0 && (seen[b] || (tip && b.Num < libn))
+		seen[b] = true
+		for _, e := range obs.Steps[i].Events {
+			if e.Step == 1 || e.Step == 17 {
+				tip = true
+			}
+			if e.Lib.Num > libn {
+				libn = e.Lib.Num
+			}
+		}
+		if !noise {
+			h2 = append(h2, b)
+			keep = append(keep, i)
+		}
+	}
+	if len(h2) < len(in.History) && len(h2) > 0 {
+		in2 := *in
+		in2.History, in2.Lookups = h2, false
+		o2, _ := fkRun(&in2)
+		bad := len(o2.Steps) != len(keep)
+		for j := 0; !bad && j < len(keep); j++ {
+			if fkStepSig(o2.Steps[j]) != base[keep[j]] {
+				bad = true
+				note += fmt.Sprintf("without the %d re-fed / below-LIB blocks: block #%d of the history delivers %s instead of %s; ", len(in.History)-len(h2), keep[j], fkStepSig(o2.Steps[j]), base[keep[j]])
+			}
+		}
+		if bad {
+			res |= 2
+			if note == "" {
+				note = "run without the noise blocks has another length"
+			}
+		}
+	}
+	return res, note
 }
 
 // ---- Coq terms ----
@@ -384,6 +578,19 @@ func coqFkCase(in *fkInput, obs *fkObs) string {
 		st[i] = coqFkStep(s)
 	}
 	return fmt.Sprintf("mkFkCase %s %s %s %s %s %s", coqFkCfg(in), coqFkMode(in), coqList(hs), coqList(st), coqNList(obs.QH), coqNList(obs.QI))
+}
+
+// W3: the case of C01-C04 = the family's case + the per-event flags + the independence bits (Check/Fk_Props_Check.v, fk_xcase)
+func coqFkXCase(in *fkInput, obs *fkObs) string {
+	fl := make([]string, len(obs.Steps))
+	for i, s := range obs.Steps {
+		f := make([]uint64, len(s.Events))
+		for j, e := range s.Events {
+			f[j] = uint64(e.Flags)
+		}
+		fl[i] = coqNList(f)
+	}
+	return fmt.Sprintf("mkFkX (%s) %s %d", coqFkCase(in, obs), coqList(fl), obs.Indep)
 }
 
 // ---- generator ----
@@ -719,6 +926,16 @@ func fkCorpus(prop string) func() []any {
 			History: []fkBlock{{ID: 3, Num: 12, Parent: 2, Lib: 10}, {ID: 2, Num: 11, Parent: 1, Lib: 14}, {ID: 5, Num: 13, Parent: 3, Lib: 10},
 				{ID: 4, Num: 14, Parent: 3, Lib: 12}, {ID: 5, Num: 13, Parent: 3, Lib: 10}},
 			Lookups: prop == "C18", Shape: "excl/corpus-lib-above-self"})
+		// W3: a reorganisation that undoes two blocks after the LIB moved, for consumers that do not ask for Irreversible events
+		// (filters 3 and 35: c04_b's LIB clauses are off, only the height clauses apply) and for the full filter: random cases meet
+		// "filter without Irreversible + LIB moved + undo batch of blocks that declared different LIBs" too rarely
+		for _, f := range []int{3, 35, 51} {
+			out = append(out, &fkInput{Prop: prop, Mode: "excl", LIB: fkRef{ID: 100, Num: 4}, Kept: 1, Filter: f, FailAt: -1,
+				History: []fkBlock{{ID: 101, Num: 5, Parent: 100, Lib: 4}, {ID: 102, Num: 6, Parent: 101, Lib: 5}, {ID: 103, Num: 7, Parent: 102, Lib: 5},
+					{ID: 104, Num: 8, Parent: 103, Lib: 6}, {ID: 105, Num: 7, Parent: 102, Lib: 5}, {ID: 106, Num: 9, Parent: 105, Lib: 6},
+					{ID: 107, Num: 10, Parent: 106, Lib: 7}},
+				Lookups: prop == "C18", Shape: "excl/corpus-reorg-after-lib-move"})
+		}
 		return out
 	}
 }
@@ -731,6 +948,12 @@ func fkExec(prop string) func(raw json.RawMessage) (*Case, error) {
 		}
 		obs, _ := fkRun(&in)
 		cs := &Case{Obs: obs, Coq: coqFkCase(&in, obs)}
+		if prop != "C18" {
+			if prop == "C03" {
+				obs.Indep, obs.IndepNote = fkIndep(&in, obs)
+			}
+			cs.Coq = coqFkXCase(&in, obs)
+		}
 		nev, nundo, nirr, nst := 0, 0, 0, 0
 		res := "ok"
 		for _, s := range obs.Steps {
